@@ -43,11 +43,13 @@ def run(tier):
     gs = [g for g in gram.corpus() if not g.recovery]
     nrand = 14 if tier == "quick" else 150
     gs += [gram.random_grammar(r, i) for i in range(nrand)]
+    gs += [gram.nonlalr_family(r, i) for i in range(4 if tier == "quick" else 40)]
+    gs += [gram.nonlalr_matrix(r, i) for i in range(10 if tier == "quick" else 120)]
     c = lrcheck.prepare(gs)
     cobl, cdis, failing = lrcheck.certify(PROP, rep, c, parts=("valid", "productive"), name="c05cert")
     cases = c04.gen_cases(c, r, 12 if tier == "quick" else 40)
     dec, nbad = lrcheck.correspond(PROP, rep, c, cases, make_judge(c), "c05")
-    lrcheck.report_cert_failures(PROP, rep, c, failing, bool(rep.viol))
+    lrcheck.report_cert_failures(PROP, rep, c, failing, bool(rep.viol), make_judge(c), r)
     errs = [(x, d) for x, d in zip(cases, dec) if d["kind"] == "err" and "expected" in d["err"]]
     reduced_first = 0
     distinct = len({(x[0], tuple(i[1] for i in x[1])) for x, d in errs if len(d["err"]["expected"]) >= 1})
